@@ -254,8 +254,19 @@ def _run_netlist(case, desc, names, tags):
         except Exception:
             return discard('rename_rejected', tags)
         tags.append('renamed_to_existing' if wb is not None else 'renamed')
+    edit = None
+    if case.get('expose') is not None:
+        # between the earlier requests and the judged one an internal net of the top block is exposed as a new output port
+        inner = [w for n_, w in sorted(top._wires.items()) if all(p.wire is not w for p in list(top.inPorts) + list(top.outPorts))
+                 and type(w) is py4hw.Wire and w.getSource() is not None]
+        if inner:
+            wx = inner[case['expose'] % len(inner)]
+
+            def edit():
+                top.addOut('dbg_out', wx)
+            tags.append('net_exposed_between_requests')
     try:
-        text = rtl.generate(top, history=case.get('history', ()))
+        text = rtl.generate(top, history=case.get('history', ()), between=edit)
     except Refused as e:
         return discard('generation_refused', tags)
     if case.get('history'):
@@ -328,6 +339,8 @@ def netlist_cases(draw, max_nodes):
     if draw(st.integers(0, 3)) == 0:
         # the judged text is requested from a generator object that already served other requests
         case['history'] = draw(st.lists(st.sampled_from(['hier_top', 'flat_top', 'hier_child', 'flat_child']), min_size=1, max_size=3))
+        if draw(st.booleans()):
+            case['expose'] = draw(st.integers(0, 7))
     return case
 
 
